@@ -30,4 +30,36 @@ CHECKS.update({
    text="Every half pattern, every single pattern (thorough; class x boundary mantissas in quick) and 4096 classes x boundary mantissas of doubles is decoded (stream callback and cbor_load item), compared bit-for-bit with an independent IEEE-754 conversion, re-encoded (cbor_encode_* and cbor_serialize) and required to reproduce the bytes (NaN -> canonical quiet NaN); every single pattern is also fed to cbor_encode_half under UBSan/ASan (totality: 3 bytes, no UB, exact half when one exists).",
    note=VAL_NOTE),
 })
+TREE_NOTE = ("Trusted: reference encoder/decoder in harness/vf_ref.c (pinned by ./vf setup), the walker (public getters only), the instrumenting allocator, "
+             "ASan/UBSan, guard-page buffers. Tree space = decoder-derived trees of the bounded input space + the constructed-tree grammar of harness/vf_trees.c (depth <= 2).")
+CHECKS.update({
+ "C03": dict(engine="E1-tree-space", category="exploration", design_ref="DESIGN.md 5/C03",
+   technique="bounded exhaustive enumeration of item trees (all decoder outputs on B(3) + pushdown DFS, plus an odometer-enumerated grammar of construction-API programs) against a reference encoder",
+   text="For every tree of the enumerated space cbor_serialize must equal, byte for byte, the reference encoder applied to the tree as read through the public getters (stored widths, shortest heads, break placement, canonical NaN); loading those bytes must consume all of them and yield an equal tree; serializing that again must give identical bytes. The constructed grammar contributes what the decoder cannot produce: partially filled definite containers, shared sub-items, non-canonical NaNs, all int widths at boundary values, string lengths on every head-width boundary up to 65536.",
+   note=TREE_NOTE),
+ "C07": dict(engine="E1-tree-space", category="exploration", design_ref="DESIGN.md 5/C07",
+   technique="complete enumeration of (tree, buffer size n) for n = 0..size+2 and (encoder, value, n) for n = 0..10 with guard-page-terminated, sentinel-filled buffers",
+   text="Every tree of the C03 space is serialized into a buffer of exactly n bytes (ending at a PROT_NONE page, sentinel in front) for every n from 0 to size+2: result = size iff n >= size else 0, no write outside; cbor_serialize_alloc must return a block of exactly `size` bytes from the installed allocator with the same bytes. Every cbor_encode_* x value x n in 0..10 must return the written length or 0 with the buffer byte-identical.",
+   note=TREE_NOTE),
+ "C11": dict(engine="E1-tree-space", category="exploration", design_ref="DESIGN.md 5/C11",
+   technique="bounded exhaustive enumeration of item trees; byte-image snapshot of every live block before/after cbor_copy, address-set disjointness, release of either tree under ASan",
+   text="Every tree of the C03 space (incl. shared sub-items, partially filled containers, zero-chunk strings, max-width ints) is copied: the copy must walk equal to the source with refcount 1 on every node and no block reachable twice, serialize to the same bytes, share no block address with the source; the byte image (contents and refcounts) of every source block must be unchanged by the copy, by mutating and releasing the copy, and a fresh copy must survive release of the source (use-after-free is fatal under ASan).",
+   note=TREE_NOTE),
+ "C14": dict(engine="E1-tree-space", category="exploration", design_ref="DESIGN.md 5/C14",
+   technique="complete enumeration of (item, suffix) pairs and of all concatenations of <= 6 items over an 8-item alphabet",
+   text="For every accepted x of the bounded input space (consumed entirely when alone, in an exactly-sized guard-page buffer) and every y of a 340-string suffix set (empty, all single bytes, all heads of Sigma, nested items, garbage), load(x||y) must give an equal tree and the same read; every concatenation of 2..6 items over 8 items must be split by the advance-by-read loop into exactly those items, ending exactly at the end.",
+   note=TREE_NOTE),
+ "C06": dict(engine="E3-fault-schedule", category="fault_enumeration", design_ref="DESIGN.md 5/C06",
+   technique="exhaustive enumeration of allocator answer schedules (every single refusal, every fail-stop suffix, thorough: every pair) for every scenario of a bounded exhaustive scenario space",
+   text="Scenarios: cbor_load of every accepted DFS sequence, cbor_copy and cbor_serialize_alloc of every tree (decoder-derived + constructed grammar), all 37 builders, push/set/map-add/add-chunk/build_tag at container sizes 0..17. For each, the N requests of the fault-free run are counted and every schedule is run: failure must be reported through the documented channel (NULL / false / 0 with NULL,0 / MEMERROR positioned just past the head that made the refused request), no crash (ASan/UBSan), live-block set back to before, and the byte image of every pre-existing block (contents and refcounts) identical.",
+   note="Trusted: instrumenting allocator (fault schedules through the public cbor_set_allocs seam), ASan/UBSan, the position oracle derived from fault-free loads of head prefixes. Fault schedules with three or more independent refusals are not enumerated."),
+ "C09": dict(engine="E4-fragment-state", category="model_checking", design_ref="DESIGN.md 5/C09",
+   technique="explicit-state search of the streaming client's state graph (consumed, buffered, outstanding required) per enumerated stream, real decoder invoked at every reachable state; brute-force conformance pass over all 2^(n-1) fragmentations of short streams",
+   text="For every stream of <= 3 (4) decodable heads over 60 heads (also with a reserved byte appended, and truncated inside the last head) and 24 long-payload streams, the state graph of a buffering client is searched to fixpoint with fragment arrivals of every size; at every reachable (consumed, buffered) the real decoder (buffer flush against a guard page) must return FINISHED with the reference event and read, or NEDATA with buffered < required <= pending length, so every fragmentation delivers the reference event sequence and a stream ending on an item boundary is consumed completely. The memoisation is cross-checked by running the real client loop over all fragmentations of every short stream.",
+   note="Trusted: reference tokeniser, recording callbacks, client model (calls the decoder whenever >= required bytes are buffered). Streams are bounded in head count; payload sizes up to 300 bytes."),
+ "C16": dict(engine="E1-value-domain", category="model_checking", design_ref="DESIGN.md 5/C16",
+   technique="explicit-state product-automaton search (library UTF-8 DFA stepped through the real _cbor_unicode_decode x RFC 3629 validator) to fixpoint + exhaustive enumeration of all byte sequences of length <= 3 (4)",
+   text="The product of the library's DFA and an RFC 3629 range validator is explored from the initial pair with all 256 byte transitions from every reachable pair until no new pair appears: in every transition reject <=> reject and scalar boundary <=> scalar boundary, which decides agreement for inputs of every length given the fold loop; the loop itself and the three API paths (set_handle, build_stringn, cbor_load) are checked on every byte sequence of length <= 3 (4 thorough), on boundary-scalar sequences with injected fault bytes, and on a 3000-byte string: count = scalar count or 0, length and content preserved, load never rejects on content.",
+   note=VAL_NOTE),
+})
 PENDING = {}
